@@ -85,7 +85,8 @@ VARIANTS_X = {
     'AVERAGE_POOL_2D': [('2x2valid', 1)],
     'SOFTMAX': [('beta2', 1)],
     'MEAN': [('nokeep', 1)],
-    'ADD': [('ts', 1)], 'MUL': [('ts', 1)],
+    'ADD': [('ts', 1), ('s0', 1), ('bc', 1)], 'MUL': [('ts', 1), ('s0', 1)],
+    'SUB': [('s0', 1), ('bc', 1)],
     'STRIDED_SLICE': [('stride2', 1)],
 }
 FIRST_VARIANT = {t: v[0] for t, v in VARIANTS.items()}
@@ -482,10 +483,20 @@ def _unary(code, ot=0, oc=None):
 
 def _binary(code, ot, oc):
   def f(c, v, ins):
-    if v in ('tc', 'ts'):
+    if v in ('tc', 'ts', 's0'):
       a, = ins
       sh = c.g.shape(a)
-      b = c.fconst('c', sh[-1:] if v == 'tc' else [1], weight=True)
+      # s0: a rank-0 constant, as the converter emits for `x + 1.0`
+      b = c.fconst('c', {'tc': sh[-1:], 'ts': [1], 's0': []}[v], weight=True)
+    elif v == 'bc':
+      # constant whose leading dimension broadcasts the *activation* (the
+      # output is larger than the runtime operand)
+      a, = ins
+      sh = c.g.shape(a)
+      if len(sh) < 2 or sh[0] != 1:
+        return None
+      b = c.fconst('c', [2] + [1] * (len(sh) - 2) + sh[-1:], weight=True)
+      sh = [2] + sh[1:]
     else:
       a, b = ins
       if c.g.shape(a) != c.g.shape(b):
@@ -493,7 +504,7 @@ def _binary(code, ot, oc):
       sh = c.g.shape(a)
     y = c.out(sh)
     c.g.op(code, [a, b], [y], ot, oc())
-    return [y], 'DD', (b if v in ('tc', 'ts') else None)
+    return [y], 'DD', (b if v in ('tc', 'ts', 's0', 'bc') else None)
   return f
 
 
